@@ -92,6 +92,11 @@ class MinPathCover(pathmodel.AbstractPathModelDAG):
 
         """
 
+        # The caller's arguments, forwarded unchanged to the k-path-cover models in solve()
+        self.G_input = G
+        self.subpath_constraints_input = subpath_constraints
+        self.elements_to_ignore_input = elements_to_ignore
+
         # Handling node-weighted graphs
         self.cover_type = cover_type
         if self.cover_type == "node":
@@ -167,14 +172,17 @@ class MinPathCover(pathmodel.AbstractPathModelDAG):
             if "time_limit" in i_solver_options:
                 i_solver_options["time_limit"] = self.time_limit - self.solve_time_elapsed
 
+            # kPathCover builds its own internal (node-expanded, source/sink augmented) graph,
+            # so it must receive the caller's graph and arguments, not the internal ones
             model = kpathcover.kPathCover(
-                        G=self.G,
+                        G=self.G_input,
                         k=i,
-                        subpath_constraints=self.subpath_constraints,
+                        cover_type=self.cover_type,
+                        subpath_constraints=self.subpath_constraints_input,
                         subpath_constraints_coverage=self.subpath_constraints_coverage,
                         subpath_constraints_coverage_length=self.subpath_constraints_coverage_length,
                         length_attr=self.length_attr,
-                        elements_to_ignore=self.edges_to_ignore,
+                        elements_to_ignore=self.elements_to_ignore_input,
                         additional_starts=self.additional_starts,
                         additional_ends=self.additional_ends,
                         optimization_options=self.optimization_options,
